@@ -103,7 +103,84 @@ Section Envelope.
     let nonce := firstn nonce_size (skipn 4 envelope) in
     let ciphertext := firstn (module_len - nonce_size) (skipn (4 + nonce_size) envelope) in
     open_ k nonce aad ciphertext.
+
+  (* readDecryptedEnvelopeFrom (file.go): the reader of the modules met in a
+     stream of pages -- data and dictionary page headers and bodies
+     (FilePages.readPage / readDictionaryPage), bloom filter header and bitset
+     (FileColumnChunk.setBloomFilterOn), and the writer's read-back of its own
+     encrypted pages (writer.go, flushFilterPages): io.ReadFull of the 4-byte
+     length field, io.ReadFull of exactly that many bytes, decryptModule on the
+     envelope.  The only conditions on the length are those of decryptModule:
+     a module is as long as its plaintext (a page, a dictionary, a bitset).
+     Returns the plaintext and what follows the module in the stream. *)
+  Definition read_envelope_from (k : key) (aad stream : bytes) : option (bytes * bytes) :=
+    if (length stream <? 4)%nat then None else
+    let module_len := N.to_nat (of_le (firstn 4 stream)) in
+    if (length stream <? 4 + module_len)%nat then None else
+    match decrypt_module k aad (firstn (4 + module_len) stream) with
+    | Some p => Some (p, skipn (4 + module_len) stream)
+    | None => None
+    end.
 End Envelope.
+
+(** ** The length field, on numbers (modules of many MiB: no [nat] here) *)
+(* encryptModule: moduleLen := encNonceSize + len(plaintext) + gcm.Overhead();
+   binary.LittleEndian.PutUint32(out[:4], uint32(moduleLen)) *)
+Definition module_len_of_plain (plain_len : N) : N :=
+  N.of_nat nonce_size + plain_len + N.of_nat tag_size.
+
+Definition len_field (plain_len : N) : bytes := to_le 4 (module_len_of_plain plain_len).
+
+(* What readDecryptedEnvelopeFrom / decryptModule require of a length field
+   when [avail] bytes follow it in the stream: the bytes are there, and the
+   module holds at least a nonce and a tag. *)
+Definition stream_accepts (field : bytes) (avail : N) : bool :=
+  let ml := of_le field in
+  (ml <=? avail)%N && (N.of_nat (nonce_size + tag_size) <=? ml)%N.
+
+(** * Writer options (config.go, writer.go, sorting.go, parquet.go) *)
+(** Only the Encryption field of WriterConfig is followed.  An option is
+    WithEncryption(cfg) ([WEnc], the configurations are numbered), any other
+    option ([WOther]), or a *WriterConfig ([WConf]): NewWriterConfig(options...)
+    or a WriterConfig value to which options were applied, used as an option. *)
+Inductive wopt := WOther | WEnc (cfg : N) | WConf (opts : list wopt).
+
+(* config.Apply(options...): opt.ConfigureWriter(config) for each option in turn.
+   writerEncryptionOption.ConfigureWriter: c.Encryption = o.cfg.
+   ConfigureWriter of a WriterConfig used as an option: Encryption: cmp.Or(c.Encryption, config.Encryption),
+   where c is the option (built from its own options, starting from a
+   configuration without encryption) and config the destination. *)
+Fixpoint apply_wopt (cur : option N) (o : wopt) : option N :=
+  match o with
+  | WOther => cur
+  | WEnc c => Some c
+  | WConf l =>
+      match fold_left apply_wopt l None with
+      | Some c => Some c
+      | None => cur
+      end
+  end.
+
+(* How the options given to a constructor reach the writer of the file:
+   NewGenericWriter, NewWriter: config := NewWriterConfig(options...) ([CDirect]);
+   NewSortingWriter, Write, WriteFile: config := NewWriterConfig(options...),
+   then NewGenericWriter(output, config): the configuration is the one option
+   of the writer of the output file ([CViaConfig]). *)
+Inductive wctor := CDirect | CViaConfig.
+
+Definition effective_encryption (ct : wctor) (l : list wopt) : option N :=
+  match ct with
+  | CDirect => fold_left apply_wopt l None
+  | CViaConfig => fold_left apply_wopt [WConf l] None
+  end.
+
+(* The configurations the options name, in the order written (depth first). *)
+Fixpoint enc_mentions (o : wopt) : list N :=
+  match o with
+  | WOther => []
+  | WEnc c => [c]
+  | WConf l => flat_map enc_mentions l
+  end.
 
 (** * File layouts *)
 (** One column chunk: has a dictionary page, number of data pages, has a bloom
@@ -563,6 +640,15 @@ Definition oracle_aad (pfx fu : bytes) (code : Z) (rg col pg : Z) : option bytes
   end.
 
 Definition oracle_accepts (lay : layout) : bool := layout_accepted lay.
+
+(* length field of a module of [plain_len] plaintext bytes; does the streamed
+   reader accept it when [avail] bytes follow the field? *)
+Definition oracle_envelope (plain_len avail : N) : bytes * bool :=
+  (len_field plain_len, stream_accepts (len_field plain_len) avail).
+
+(* which configuration the writer of the file encrypts with (None: it does not encrypt) *)
+Definition oracle_effective (via_config : bool) (l : list wopt) : option N :=
+  effective_encryption (if via_config then CViaConfig else CDirect) l.
 
 (** All (position, type code, AAD) of a written file, in file order per chunk:
     used by the harness to decrypt every module of real files. *)
